@@ -93,6 +93,15 @@ func fnCmd(args []string) {
 			fmt.Printf("   UNSUPPORTED: %s\n", u)
 			bad++
 		}
+		{
+			sl := append([]*Obligation{}, obls...)
+			sort.Slice(sl, func(i, j int) bool { return sl[i].TimeS > sl[j].TimeS })
+			for i := 0; i < len(sl) && i < 4; i++ {
+				if sl[i].TimeS > 3 {
+					fmt.Printf("   slow %.1fs %s (%s %s)\n", sl[i].TimeS, sl[i].Name, sl[i].Status, sl[i].Solver)
+				}
+			}
+		}
 		for _, o := range obls {
 			okay := (o.Status == "unsat" && !o.ExpectSat) || (o.ExpectSat && o.Status != "unsat" && o.Status != "error")
 			if !okay {
